@@ -371,16 +371,18 @@ struct Runner {
     dsim::op_begin(ctx, L.idx);
     return ci;
   }
-  void post_call()
+  // keep_buffered: (weak-store runs) the call returns while its relaxed stores may still sit in the store buffer - used for
+  // acquisitions, whose only plain stores initialise queue nodes that a correct lock publishes with release ordering
+  void post_call(bool keep_buffered = false)
   {
-    dsim::op_end();
+    if (keep_buffered) dsim::op_end_keep_buffered(); else dsim::op_end();
     if constexpr (A::kMcs) dsim::set_alloc_tag(0);
   }
 
   void granted(LS &L, const CallInfo &ci, int m, int fl, const char *via, bool queue_request)
   {
     const uint64_t arrival = dsim::watched_write_seq();
-    post_call();
+    post_call(true);
     reg_begin(L, m, fl, via);
     hb_begin(L, m, via);
     if (ci.conflict_at_inv) dsim::probe(pConflictWaited);
@@ -891,6 +893,14 @@ struct Runner {
       expect_bool(og, false, "OptGuard");
       uint64_t rel_inv_at_obtain = L.rel_inv;
       for (int attempt = 0; attempt <= static_cast<int>(op.a); ++attempt) {
+        if ((op.b & kMoveCtor) && attempt == 1) {
+          // OptGuard is copyable: a copy carries the same version and validates the same way
+          OG copy = og;
+          if (copy.GetVersion() != og.GetVersion()) {
+            ORACLE("[C03]", "optguard-copy-version", " :: a copy of an OptGuard carries version %u, the original %u", copy.GetVersion(), og.GetVersion());
+          }
+          og = copy;
+        }
         const OptRead rd = read_payload_optimistic(L, attempt & 1);
         const uint32_t carried = og.GetVersion();
         bool ok = false;
@@ -1407,6 +1417,7 @@ void generate(Program &prog, dsim::Config &cfg, dsim::Rng &pr, dsim::Rng &cr, in
   cfg.tso = profile != kHb && cr.chance(1, 5);  // x86-TSO store buffers inside API calls; never for C08's happens-before runs
   static const int kDrain[] = {1, 5, 25};
   cfg.tso_drain_percent = kDrain[cr.below(3)];
+  cfg.weak_stores = cr.chance(1, 2);  // half of the buffered runs: only release-class operations drain the buffer
 }
 
 std::string render(const Program &p)
